@@ -239,6 +239,23 @@ def fix2(run):
     run.floor(R, "stateful resolvers", n, 7)
 
 
+def single_candidate_flag(f, root):
+    """is local `root` the flag `exactly one candidate encoding`: `<encodings>.map_or(false, |e| e.len() == 1)`?"""
+    from rules_sym import deep
+    from mir import closure_of_origin
+    ds = f.full_defs(root)
+    if len(ds) != 1 or ds[0][0] != "call":
+        return False
+    t = ds[0][2]
+    if not re.search(r"Option::<T>::(map_or|is_some_and)$", t.get("callee") or ""):
+        return False
+    cid = closure_of_origin(f.origin_op(t["args"][-1]))
+    g = f.prog.fn(cid) if cid else None
+    if g is None:
+        return False
+    return deep(g, g.origin_local(0), 5) in ("(Vec::len(P2) Eq 1_usize)", "(slice::len(P2) Eq 1_usize)")
+
+
 def edge_true_dominates(f, cond_desc_pred, block):
     """is `block` dominated by the TRUE edge of a switch whose discriminant satisfies cond_desc_pred(description)?"""
     for b in f.dominators().get(block, ()):
@@ -252,6 +269,8 @@ def edge_true_dominates(f, cond_desc_pred, block):
         d = describe_origin(f, f.origin_local(root))
         if f.local_name(root):
             d += " var:" + f.local_name(root)
+        if single_candidate_flag(f, root):
+            d += " flag:single-candidate"
         neg = False
         o = f.origin_local(dl)
         if o[0] == "unop" and o[1]["op"] == "Not":
@@ -305,7 +324,7 @@ def fix3(run):
                 conds.append("statically_known")
             if edge_true_dominates(f, lambda d: d.split(" var:")[0].endswith(".is_first_iteration"), bi):
                 conds.append("is_first_iteration")
-            if edge_true_dominates(f, lambda d: d.endswith(" var:has_single_match"), bi):
+            if edge_true_dominates(f, lambda d: d.endswith(" flag:single-candidate"), bi):
                 conds.append("has_single_match")
             key = "%s|%s|resolved=true" % (R, f.id)
             want = None
@@ -418,6 +437,20 @@ def fix1(run):
                     continue  # Value::Unknown is "no result yet", only allowed while guessing (checked below)
                 oks.append((bi, st))
         run.check(bool(oks), R, "%s|%s|has-result" % (R, f.id), f.loc(), "%s has %d result-delivering return(s)" % (f.id, len(oks)), "%s never delivers a result" % f.id)
+        # a delivered *value* is the confirming pass's own value, not one kept from a guessing pass
+        if not d.get("returns_counter"):
+            for bi, st in oks:
+                o = f.origin_op(st["rv"]["ops"][0]) if st["rv"]["ops"] else None
+                base = o
+                while base and base[0] in ("place", "ref", "cast"):
+                    base = base[1]
+                while base and base[0] == "call" and (base[1].get("callee") or "") in ("std::ops::Try::branch", "std::clone::Clone::clone") and base[1]["args"]:
+                    base = f.origin_op(base[1]["args"][0])
+                    while base and base[0] in ("place", "ref", "cast"):
+                        base = base[1]
+                good = bool(base) and base[0] == "call" and (base[1].get("resolved") or "") == d["once"] and const_int(base[1]["args"][last_idx]) == 1
+                run.check(good, R, "%s|%s|value-of-confirming-pass" % (R, f.id), f.loc(st["span"]), "%s delivers the value computed by the confirming (no-guess) pass itself" % f.id,
+                          "%s delivers a value that was not computed by the confirming pass (it is kept from an earlier, guessing pass): with a small budget the delivered bits can be built from stale label values, so the budget changes the output" % f.id)
         for bi, st in oks:
             good = False
             why = "no dominating %s call with is_last_iteration = true" % d["once"].rsplit("::", 1)[-1]
@@ -627,6 +660,28 @@ def fix4(run):
             run.check((0, 1) in consts, R, "%s|%s|confirming-flags" % (R, f.id), f.loc(),
                       "%s: the confirming pass runs with (is_first=false, is_last=true)" % f.id,
                       "%s: no pass with constant flags (false, true) — flag pairs found: %s" % (f.id, consts))
+    # the pass count shown to the user is the main driver's return value, unchanged
+    asm = prog.fn("asm::assemble::{closure#0}")
+    if asm is not None:
+        from rules_sym import deep
+        found = []
+        for bi, si, st in asm.stmts():
+            if st["k"] != "assign" or not st["place"]["p"]:
+                continue
+            named = any(isinstance(pr, dict) and pr.get("name") == "iterations_taken" for pr in st["place"]["p"])
+            if not named and st["place"]["p"] == ["deref"]:
+                # the closure captured `assembly.iterations_taken` by reference
+                named = "iterations_taken" in deep(asm, {"copy": {"l": st["place"]["l"], "p": []}}, 3)
+            if named:
+                rv = st["rv"]
+                if rv["k"] == "agg" and rv.get("variant") == "Some":
+                    found.append(deep(asm, rv["ops"][0], 4))
+                elif rv["k"] == "use":
+                    found.append(deep(asm, rv["op"], 4))
+        found = [x for x in found if x != "None{}"]
+        okc = len(found) == 1 and bool(re.fullmatch(r"(Some\{)?resolver::resolve_iteratively\(.*\)@Continue\.0\}?", found[0]))
+        run.check(okc, R, R + "|reported-count", asm.loc(), "the reported number of passes is what resolve_iteratively returned",
+                  "the reported number of passes is `%s`, not the return value of resolve_iteratively: it can exceed the budget" % (found[:2]))
     # who reads max_iterations
     allowed = set(spec["max_iterations_readers"])
     readers = set()
